@@ -1,10 +1,10 @@
 #!/bin/bash
 # Development aid: run quick checks against a scratch worktree that carries a seeded change.
-#   ./seedtest.sh <worktree> <id> [<id> ...]        (evidence and replay files go to /tmp/jv-seed/)
+#   ./seedtest.sh <worktree> <id> [<id> ...]        (evidence and replay files go to /tmp/jv-seed/, work and target dirs to /var/tmp/join-verif-seed)
 wt=$1; shift
 cd "$(dirname "$0")"
 for id in "$@"; do
-  JOIN_REPO=$wt JV_EVIDENCE_DIR=/tmp/jv-seed/evidence JV_REPLAY_DIR=/tmp/jv-seed/replays ./check $id --tier ${TIER:-quick} > /tmp/jv-seed-$id.log 2>&1
+  JV_WORK=${JV_WORK:-/var/tmp/join-verif-seed} JOIN_REPO=$wt JV_EVIDENCE_DIR=/tmp/jv-seed/evidence JV_REPLAY_DIR=/tmp/jv-seed/replays ./check $id --tier ${TIER:-quick} > /tmp/jv-seed-$id.log 2>&1
   echo "$id rc=$? $(grep -m1 '^\[' /tmp/jv-seed-$id.log | cut -c1-170)"
   grep -m3 -A2 '^VIOLATION' /tmp/jv-seed-$id.log | cut -c1-400
 done
